@@ -168,6 +168,35 @@ std::vector<BitItem> BitItems(const POp &op, bool bits_only, bool single_bit_api
   return out;
 }
 
+// Items of a bit region. With op.d > 0 the base items are repeated / trimmed so
+// that the region is exactly as long as a size whose varint changes length
+// (127..129, 255/256, 16383..16385 bytes, minus 0..7 bits).
+std::vector<BitItem> RegionItems(const POp &op) {
+  std::vector<BitItem> items = BitItems(op, false, false);
+  if (op.d <= 0) return items;
+  static const int64_t kBytes[] = {127, 128, 129, 16383, 16384, 16385, 255, 256};
+  const int64_t target = kBytes[(op.d - 1) % 8] * 8 - static_cast<int64_t>((op.seed >> 8) % 8);
+  if (items.empty()) {
+    BitItem it;
+    it.nbits = 8;
+    it.v = 0xA5;
+    items.push_back(it);
+  }
+  std::vector<BitItem> out;
+  int64_t bits = 0;
+  for (size_t i = 0; bits < target; ++i) {
+    BitItem it = items[i % items.size()];
+    if (it.nbits < 1) it.nbits = 1;
+    if (bits + it.nbits > target) {
+      it.nbits = static_cast<int>(target - bits);
+      it.v = MaskBits(it.v, it.nbits);
+    }
+    out.push_back(it);
+    bits += it.nbits;
+  }
+  return out;
+}
+
 std::vector<uint32_t> SymbolValues(const POp &op) {
   Rng r(op.seed);
   if (op.d >= 100) {
@@ -309,7 +338,7 @@ bool WriteOp(const POp &op, draco::EncoderBuffer *buf) {
           return draco::EncodeVarint(FromBits<int64_t>(op.a), buf);
       }
     case P_BITREGION: {
-      std::vector<BitItem> items = BitItems(op, false, false);
+      std::vector<BitItem> items = RegionItems(op);
       int64_t bits = 0;
       for (const BitItem &it : items) bits += it.nbits;
       if (bits == 0) return true;  // an empty region cannot be started
@@ -517,7 +546,7 @@ void ReadOp(const POp &op, int extra, draco::DecoderBuffer *db, ReadOutcome *r) 
       }
       break;
     case P_BITREGION: {
-      std::vector<BitItem> items = BitItems(op, false, false);
+      std::vector<BitItem> items = RegionItems(op);
       int64_t bits = 0;
       for (const BitItem &it : items) bits += it.nbits;
       if (bits == 0) {
@@ -782,6 +811,8 @@ PPlan GeneratePrimPlan(uint64_t seed, bool big) {
       op.b = static_cast<int>(ro.Below(2));
       op.c = ro.Chance(1, 2) ? 1 : 2 + static_cast<int>(ro.Below(32));
       op.d = 0;
+      if (ro.Fork("size-boundary").Chance(1, 5))
+        op.d = 1 + static_cast<int>(ro.Fork("size-boundary-k").Below(big ? 8 : 3));
       // BitItems for regions: widths (mode 1 random, else fixed = c-1).
       op.b = op.b;
     } else if (pick < 90) {
